@@ -101,11 +101,12 @@ def lattice():
     for mb in [0, 1, 7, 8, 9, 16]:
         add("shard_poplar1", "bits=8,mbits=%d" % mb, bits=8, mbits=mb)
     # roles and counts
-    for nagg in [2, 3]:
-        for ident in [0, 1, nagg - 1, nagg, nagg + 1, 255, 256, 2 ** 32, UMAX]:
-            add("vinit_prio3", "nagg=%d,id=%s" % (nagg, name(ident)), nagg=nagg, aid=ident)
-        for cnt in [0, 1, nagg - 1, nagg, nagg + 1, 2 * nagg, 256, 256 + nagg, 512 + nagg]:
-            add("s2m_prio3", "nagg=%d,count=%d" % (nagg, cnt), nagg=nagg, count=cnt)
+    for nagg in [1, 2, 3]:
+        for kind in ["count", "histogram", "sumvec2proofs", "sum"]:
+            for ident in [0, 1, nagg - 1, nagg, nagg + 1, 255, 256, 2 ** 32, UMAX]:
+                add("vinit_prio3", "%s,nagg=%d,id=%s" % (kind, nagg, name(ident)), nagg=nagg, aid=ident, kind=kind)
+            for cnt in [0, 1, nagg - 1, nagg, nagg + 1, 2 * nagg, 255, 256, 256 + nagg, 512 + nagg]:
+                add("s2m_prio3", "%s,nagg=%d,count=%d" % (kind, nagg, cnt), nagg=nagg, count=cnt, kind=kind)
     for ident in [0, 1, 2, 3, 256, 257, UMAX]:
         add("vinit_prio2", "id=%s" % name(ident), nagg=2, aid=ident)
         add("vinit_poplar1", "id=%s" % name(ident), nagg=2, aid=ident)
